@@ -206,13 +206,14 @@ PROPS["C18"] = dict(
 )
 
 KANI_BUCKETS = 3
+RANK = {"quick": 0, "thorough": 1, "deep": 2}
 
 
 def build_jobs(prop, tier, wd, only=None):
     P = PROPS[prop]
     jobs = []
     vlist = list(P.get("verus_quick", []))
-    if tier == "thorough":
+    if tier in ("thorough", "deep"):
         vlist = list(P.get("verus_thorough", vlist))
     for kind, name, variables, label in vlist:
         label = label or name
@@ -220,7 +221,7 @@ def build_jobs(prop, tier, wd, only=None):
             continue
         jobs.append((label, (lambda n=name, v=variables, l=label: vunit.run_vc_unit(n, wd, v, label=l)), "verus"))
     rlist = list(P.get("rows_quick", []))
-    if tier == "thorough":
+    if tier in ("thorough", "deep"):
         rlist = list(P.get("rows_thorough", rlist))
     for rname in rlist:
         if only and only not in rname:
@@ -232,11 +233,13 @@ def build_jobs(prop, tier, wd, only=None):
     for h in hs.values():
         if prop not in h.props:
             continue
-        if (h.tier == "thorough" or prop in h.thorough_only) and tier != "thorough":
+        # tiers: quick < thorough < deep (deep = unbounded-cost harnesses, `./check <id> --tier deep`, not registered)
+        need = max(RANK[h.tier], 1 if prop in h.thorough_only else 0)
+        if need > RANK.get(tier, 0):
             continue
         if only and only not in h.name:
             continue
-        feats = h.feats if tier == "thorough" else h.feats[:h.quickfeats]
+        feats = h.feats if tier in ("thorough", "deep") else h.feats[:h.quickfeats]
         for fs in feats:
             # memory-heavy harnesses (observed peak >= 8 GB, @mem) run in their own, less parallel group
             groups.setdefault((fs, "heavy" if h.mem_gb >= 8 else ""), []).append(h)
